@@ -30,11 +30,11 @@ Section Order.
     construct_generic vr ev w pattern_ok selectors_ok rc rp ro fuel c a i kw [] vrf = Ok (PObject ci S0 dfl hc) ->
     exists customs,
       map fst S0 = filter (fun n => amem n S0) (PN c ++ customs) /\
-      NoDup (PN c ++ customs) /\ (forall x, In x customs -> mem_ustr x (PN c) = false).
+      NoDup (PN c ++ customs) /\ (forall x, In x customs -> mem_ustr x (PN c) = false) /\ usort customs = customs.
   Proof.
     intros rc rp ro c a i vrf Hnd fuel kw ci S0 dfl hc Hp H.
     destruct (cg_unfold vr ev w pattern_ok selectors_ok rc rp ro c a i vrf Hnd fuel kw _ Hp H) as [AC [S1 [hc0 [hc1 [HND [_ [EL Eo]]]]]]].
-    inversion Eo; subst. exists (usort AC). split; [| split].
+    inversion Eo; subst. exists (usort AC). split; [| split; [| split; [| apply usort_idem]]].
     - pose proof (loop_keys vr ev w rc rp ro c a i vrf kw _ [] _ S1 hc0 HND (fun _ _ => eq_refl) EL) as Hk.
       cbn [map app] in Hk. exact Hk.
     - exact HND.
@@ -59,7 +59,7 @@ Section Order.
     map fst ms = map fst (kept incl dfl inner) /\
     exists customs,
       map fst inner = filter (fun n => amem n inner) (PN c ++ customs) /\
-      NoDup (PN c ++ customs) /\ (forall x, In x customs -> mem_ustr x (PN c) = false).
+      NoDup (PN c ++ customs) /\ (forall x, In x customs -> mem_ustr x (PN c) = false) /\ usort customs = customs.
   Proof.
     intros f kid allow interop kw vrefs ci inner dfl hc c incl g ms Hm Hp Hid H Ef Hdig Heq Hpr.
     destruct (run_construct_eff vr ev w pattern_ok selectors_ok Hpad ids Hclosed f kid allow interop kw vrefs _ Hm Hp Hid H)
@@ -67,7 +67,7 @@ Section Order.
     rewrite Ef in Ef'. inversion Ef'; subst c'. clear Ef'.
     unfold effective in Heff.
     destruct Heff as [cE [rcE [PE [kwE [_ [Hnd [_ [Hcg [HpE [_ [_ [_ [_ HPN]]]]]]]]]]]]].
-    destruct (cg_key_order rcE _ _ cE allow interop _ Hnd (S f) kwE ci inner dfl hc HpE Hcg) as [customs [Hk [HND Hcust]]].
+    destruct (cg_key_order rcE _ _ cE allow interop _ Hnd (S f) kwE ci inner dfl hc HpE Hcg) as [customs [Hk [HND [Hcust Hsorted]]]].
     rewrite HPN in *.
     split; [| exists customs; auto].
     apply (pretty_toplevel_order ci inner dfl hc incl) with (fuel := g); auto.
